@@ -174,17 +174,25 @@ def gen_groups(ctx):
                 body = ops[k:-1]
                 for j in range(0, len(body), 8192):
                     add(kind, (h, ops[:k] + body[j:j + 8192] + ["SNAP"]))
-            add(kind, ddgen.case_ite("x", kind, order, rng, 60000 if thorough else 12000))
+            add(kind, ddgen.case_ite("x", kind, order, rng, 60000 if thorough else 9000))
         # the exhaustive suite of one operator under 2 and 8 workers as well
         op = rng.choice(ddgen.BIN_OPS)
         add(kind, ddgen.case_pairs("x", kind, rng.choice(ddgen.PERMS3), op,
-                                   sample=None if thorough else 16000, rng=rng), threads=(1, 2, 8, (4, 0), (4, 12)))
-        for _ in range(120 if thorough else 16):
+                                   sample=None if thorough else 12000, rng=rng), threads=(1, 2, 8, (4, 0), (4, 12)))
+        for _ in range(120 if thorough else 12):
             # ZBDD: the set-family interface (subset0/1, change, union, ...) as well -- its single-threaded and
             # multi-threaded function types are separate wrappers
             from checks import C09
             extra = (C09.zb_extra, C09.zb_extra, C09.zb_extra) if kind == "zbdd" else ()
             add(kind, ddgen.case_history("x", kind, rng, nv=rng.randrange(3, 8), length=60, extra_ops=extra), threads=(1, 2, 8, (4, 0), (4, 12)))
+    # the three ways of declaring variables (add_vars, add_named_vars, add_named_vars_from_map -- the last one adopts
+    # the caller's map when the manager has no variables yet) on every configuration (both node stores implement them)
+    for kind in ddgen.KINDS_BOOL:
+        for how in ("named", "map", "map"):
+            for _ in range(4 if thorough else 1):
+                h, ops = ddgen.case_history("x", kind, rng, nv=rng.randrange(3, 7), length=30)
+                h = " ".join(t for t in h.split() if not t.startswith("addvars=")) + f" addvars={how}"
+                add(kind, (h, ops))
     for _ in range(60 if thorough else 10):
         add("mtbdd", ddgen.mt_case_history("x", rng, length=60), threads=(1, 2, 8))
     add("mtbdd", ddgen.mt_case_pairs_1var("x", rng.choice(ddgen.MT_OPS)))
